@@ -123,7 +123,8 @@ Qed.
 
 Theorem serve_safe B known (body_read : Z -> Z -> bytes -> option B) flex fuel : forall s,
   (length s < fuel)%nat ->
-  Forall safe (fst (serve B known body_read flex true fuel s)) /\ safe (snd (serve B known body_read flex true fuel s)).
+  Forall safe (fst (fst (serve B known body_read flex true fuel s))) /\
+  safe (snd (fst (serve B known body_read flex true fuel s))).
 Proof.
   induction fuel as [|f IH]; intros s Hf; [lia|]. cbn [serve].
   pose proof (read_frame_safe s) as Hs.
@@ -131,7 +132,7 @@ Proof.
   pose proof (parse_request_safe B known body_read flex p) as Hp.
   apply read_frame_shrinks in ER.
   destruct (parse_request B known body_read flex true p) as [r|e|w|] eqn:EP; try contradiction.
-  - specialize (IH rest ltac:(lia)). destruct (serve B known body_read flex true f rest) as [l t].
+  - specialize (IH rest ltac:(lia)). destruct (serve B known body_read flex true f rest) as [[l t] u].
     cbn [fst snd] in *. destruct IH as [I1 I2]. split; [constructor; [exact I|exact I1]|exact I2].
   - cbn [fst snd]. split; [repeat constructor|exact I].
 Qed.
@@ -267,6 +268,16 @@ Proof.
   unfold read_frame. rewrite E. replace (v <? 0) with true by lia. reflexivity.
 Qed.
 
+
+(* the error path: a frame whose request does not parse ends the loop with E_CLOSED, and
+   everything after that frame stays unread *)
+Theorem serve_error_path B known (body_read : Z -> Z -> bytes -> option B) flex fixed fuel p rest e :
+  zlen p < 2147483648 ->
+  parse_request B known body_read flex fixed p = Err e ->
+  serve B known body_read flex fixed (S fuel) (frame p ++ rest) = ([Err e], Err E_CLOSED, rest).
+Proof.
+  intros Hp HE. cbn [serve]. rewrite frame_roundtrip by exact Hp. rewrite HE. reflexivity.
+Qed.
 
 (* the code before the patch: a flexible header whose tagged-field size is 2^64-1 panics *)
 Definition witness_flex (k v : Z) : bool := (k =? 18) && (3 <=? v).
